@@ -1010,9 +1010,114 @@ class ManifestVerbatim(Contract):
         raise NotImplementedError
 
 
+
+class Rpms03RefileAny(Contract):
+    """Rpms.deserialize_0_3 on a legacy document of ARBITRARY size (any number of variants, arches, source packages and packages; witness rule
+    of pyvc/anycoll.py for the four nested loops, add() is the recorded callee contract): for the arbitrary entry (variant v, arch a, source
+    package s, package r) with a != 'src', the iteration files r under (v, a) with its own path/sigkey/category ('package' -> 'binary') and
+    source package s, and -- iff v's 'src' table lists s -- files s under (v, a) as 'source' with the path/sigkey of ITS OWN record; nothing
+    is ever filed under 'src'."""
+    name = "productmd.rpms.Rpms.deserialize_0_3[document of arbitrary size]"
+    key = "meth:rpms.Rpms.deserialize_0_3:any"
+
+    def __init__(self, src, T):
+        self.src, self.T = src, T
+
+    def setup(self, E):
+        from pyvc.anycoll import AnyDict
+        m = E.instantiate(("rpms", "Rpms"))
+        recs = {}
+
+        def rec(E_, key, tag, kind):
+            d = E_.models.new_dict("rec")
+            f = {"path": SV(sym.Val.VStr(E_.fresh("rec.path", sym.S))), "sigkey": SV(E_.fresh("rec.sigkey"))}
+            E_.assume(Or(is_none(f["sigkey"]), is_str(f["sigkey"])))
+            f["type"] = "source" if kind == "src" else SV(sym.Val.VStr(E_.fresh("rec.type", sym.S)))
+            for k in ("type", "path", "sigkey"):
+                d.entries.append(Entry(k, True, f[k]))
+            recs[id(d)] = f
+            return d
+
+        def arch_table(E_, key, tag):
+            if E_.decide(eq(key, "src")):
+                return AnyDict("srctable", lambda e, k, t: rec(e, k, t, "src"))
+            return AnyDict("srpms", lambda e, k, t: AnyDict("rpms", lambda e2, k2, t2: rec(e2, k2, t2, "bin")))
+        manifest = AnyDict("manifest", lambda e, k, t: AnyDict("arches", arch_table))
+        payload = E.models.new_dict("payload")
+        payload.entries.append(Entry("compose", True, E.models.new_dict("compose")))
+        payload.entries.append(Entry("manifest", True, manifest))
+        data = E.models.new_dict("doc")
+        data.entries.append(Entry("payload", True, payload))
+        calls = []
+
+        def add(E_, o, args, kwargs):
+            calls.append((list(args), dict(kwargs)))
+            return None
+        E.summaries[(("rpms", "Rpms"), "add")] = add
+        E.summaries[(("composeinfo", "Compose"), "deserialize")] = lambda E_, o, args, kwargs: None
+        return {"m": m, "data": data, "manifest": manifest, "calls": calls, "recs": recs}
+
+    def call(self, E, st):
+        try:
+            return E.call(E.getattr_(st["m"], "deserialize_0_3"), [st["data"]])
+        finally:
+            E.summaries.pop((("rpms", "Rpms"), "add"), None)
+            E.summaries.pop((("composeinfo", "Compose"), "deserialize"), None)
+
+    def post(self, E, st, out):
+        from pyvc.anycoll import AnyDict, AnyItems
+        if out.kind == "raise":
+            return {"legacy_document_is_read": False}
+        wit = getattr(E.path, "witnesses", [])
+        names = ["variant", "arch", "nevra", "path", "sigkey", "category", "srpm_nevra"]
+        got = []
+        for args, kw in st["calls"]:
+            row = list(args) + [None] * (7 - len(args))
+            for k, v in kw.items():
+                row[names.index(k)] = v
+            got.append(row)
+        under_src = And(*[Not(eq(r[1], "src")) for r in got]) if got else True
+        # the chain of 'all' witnesses: variant key, arch key, (srpm, rpms) item, (rpm, record) item
+        alls = [(c, x) for kind, c, x in wit if kind == "all"]
+        if any(kind == "exit" for kind, c, x in wit):
+            return {"legacy_document_is_read": True, "no_iteration_leaves_the_loops_early": False}
+        cl = {"legacy_document_is_read": True, "nothing_filed_under_src": under_src}
+        full = [x for c, x in alls if x is not None]
+        if len(alls) == 4 and len(full) == 4:
+            v, a, (s, rpms), (r, recd) = full
+            f = st["recs"].get(id(recd))
+            vt = [e[2] for e in st["manifest"].known if e[0] is v][0]
+            # whether v's 'src' table lists s is a fact about the DOCUMENT, not about what the reader chose to look up: the entries are
+            # materialised here if the code never asked for them (fresh presence bits: both answers are explored)
+            from pyvc.anycoll import dict_lookup, _entry_present
+            srec = None
+            e_src = dict_lookup(E, vt, "src")
+            if _entry_present(E, vt, e_src, "post") and isinstance(e_src[2], AnyDict):
+                e_s = dict_lookup(E, e_src[2], s)
+                if _entry_present(E, e_src[2], e_s, "post"):
+                    srec = st["recs"].get(id(e_s[2]))
+            exp = [[v, a, r, f["path"], f["sigkey"], If(eq(f["type"], "package"), "binary", f["type"]), s]]
+            if srec is not None:
+                exp.append([v, a, s, srec["path"], srec["sigkey"], "source", None])
+
+            def row_eq(g, e):
+                return And(*[_veq(x, y) for x, y in zip(g, e)])
+            cl["entry_refiled_with_its_own_fields_and_its_source_package"] = \
+                And(len(got) == len(exp), *[Or(*[row_eq(g, e) for e in exp]) for g in got]) if len(got) == len(exp) else False
+        else:
+            # some level is empty (or the arch is 'src'): this iteration files nothing
+            cl["entry_refiled_with_its_own_fields_and_its_source_package"] = len(got) == 0
+        return cl
+
+    def concretise(self, model, st):
+        return None
+
+    def native_eval(self, inputs):
+        raise NotImplementedError
+
 def contracts(src, T):          # noqa: F811
     return [RpmsAdd(src, T), ModulesAdd(src, T), ExtraFilesAdd(src, T), CheckUid(src, T),
             ManifestVerbatim(src, T, "rpms", "Rpms", "rpms"), ManifestVerbatim(src, T, "modules", "Modules", "modules"),
             ManifestVerbatim(src, T, "extra_files", "ExtraFiles", "extra_files"),
             ManifestShape(src, T, "rpms", "Rpms", "rpms"), ManifestShape(src, T, "modules", "Modules", "modules"),
-            ManifestShape(src, T, "extra_files", "ExtraFiles", "extra_files"), Rpms03Refile(src, T), Rpms03Refile(src, T, two_variants=True)]
+            ManifestShape(src, T, "extra_files", "ExtraFiles", "extra_files"), Rpms03Refile(src, T), Rpms03Refile(src, T, two_variants=True), Rpms03RefileAny(src, T)]
